@@ -339,8 +339,11 @@ def write_evidence(ctx, coverage, violations, assumptions, level="model_checking
     ev = dict(property_id=ctx.prop, tier=ctx.tier, seed=ctx.seed, level=level,
               coverage=coverage, assumptions=assumptions,
               wall_s=round(time.time() - ctx.t0, 2), violations=violations)
-    os.makedirs(os.path.join(VERIF, "evidence"), exist_ok=True)
-    p = os.path.join(VERIF, "evidence", ctx.prop + ".json")
+    # VERIF_SELFVAL_OUT: self-validation runs (mutants, seeded changes) must not overwrite the
+    # evidence / replays of the real tree
+    out = os.environ.get("VERIF_SELFVAL_OUT") or VERIF
+    os.makedirs(os.path.join(out, "evidence"), exist_ok=True)
+    p = os.path.join(out, "evidence", ctx.prop + ".json")
     with open(p, "w") as f:
         json.dump(ev, f, indent=1, sort_keys=True)
         f.write("\n")
@@ -348,7 +351,7 @@ def write_evidence(ctx, coverage, violations, assumptions, level="model_checking
 
 
 def save_replay(ctx, name, obj):
-    d = os.path.join(VERIF, "replays")
+    d = os.path.join(os.environ.get("VERIF_SELFVAL_OUT") or VERIF, "replays")
     os.makedirs(d, exist_ok=True)
     p = os.path.join(d, "%s-%s-seed%d-%s.json" % (ctx.prop, ctx.tier, ctx.seed, name))
     with open(p, "w") as f:
